@@ -17,3 +17,4 @@ pub use api::{Discovery, DiscoveryError};
 pub use builder::Builder;
 pub use config::DiscoveryConfig;
 pub use events::{DiscoveryEvent, SessionRole};
+#[cfg(p2panda_p2panda_verif)] #[doc(hidden)] pub mod verif_c28;
